@@ -11,6 +11,8 @@
 //	    clock    replica B = same history, executed a few seconds later, the pair straddling the
 //	             5-minute expiry of the oracle price feed (block times anchored to the host clock)
 //	    restart  replica B = app object rebuilt from the dumped stores at every block boundary
+//	    abci     real ABCI (InitChain / FinalizeBlock with signed txs / Commit): replica A in memory,
+//	             replica B on disk, closed and re-opened from disk at the block boundaries (abci.go)
 //	determinism run1                     (internal) executes the history given on stdin, prints observations
 //	determinism show -seed N -stream S   (debug) prints every step's outcome with error text
 package main
@@ -257,7 +259,7 @@ func coqStr(s string) string { return "\"" + strings.ReplaceAll(s, "\"", "\"\"")
 // ---------------------------------------------------------------------------------------------
 // replica streams
 
-var dimCode = map[string]int{"fresh": 11, "repeat": 12, "export": 13, "clock": 14, "restart": 15}
+var dimCode = map[string]int{"fresh": 11, "repeat": 12, "export": 13, "clock": 14, "restart": 15, "abci": 16}
 
 func gen(r *lib.Rand, tier, stream string, i int) History {
 	if stream == "static" {
@@ -331,6 +333,10 @@ func execReplicas(h History) lib.Case {
 	case "export":
 		a = runReplica(h, replicaOpts{Start: start, Exports: 21})
 		b = a.Reexport
+	case "abci":
+		var genesis []byte
+		a, genesis = runABCI(h, false, start, nil)
+		b, _ = runABCI(h, true, start, genesis)
 	case "restart":
 		a = runReplica(h, replicaOpts{Start: start, Exports: 1})
 		b = runReplica(h, replicaOpts{Start: start, Exports: 1, Restart: true})
@@ -443,7 +449,12 @@ func showCmd(args []string) {
 	_ = fs.Parse(args)
 	h := genHistory(lib.NewRand(*seed).Sub(uint64(*idx)), "quick", *stream)
 	debugErrors = true
-	out := runReplica(h, replicaOpts{Start: defaultStart, Exports: 1})
+	var out *replicaOut
+	if *stream == "abci" {
+		out, _ = runABCI(h, true, defaultStart, nil)
+	} else {
+		out = runReplica(h, replicaOpts{Start: defaultStart, Exports: 1})
+	}
 	for _, s := range out.Steps {
 		fmt.Println(s)
 	}
